@@ -10,5 +10,6 @@ CONSTANTS
   Barrier = TRUE
   CacheDbErr = FALSE
   QueryOnErr = FALSE
-INVARIANTS OneQueryAtATime SharedResult LoadFaithful FailFast ErrorsNotCached ServedFromCache NonOverlapTrue NonOverlapCoherent
+  TwoStepNF = FALSE
+INVARIANTS OneQueryAtATime SharedResult LoadFaithful FailFast ErrorsNotCached ServedFromCache NonOverlapTrue NonOverlapCoherent FiniteTTL
 CHECK_DEADLOCK FALSE
